@@ -543,9 +543,72 @@ def _fault_work(args):
     return out, runs, W
 
 
+def folder_case(case):
+    """load(folder) / RateManager(folder) return, for every container of
+    the folder, what loading that container alone returns"""
+    from nanite.rate.io import save_hdf5, load_hdf5, load, RateManager
+    ensure_fixtures()
+    out = []
+    d = tempfile.mkdtemp(prefix="folder_", dir=tmpdir())
+    try:
+        single = {}
+        for fn, saves in case["containers"].items():
+            p = os.path.join(d, fn)
+            for cname, fname, u in saves:
+                name, rate, comment = USERS[u]
+                save_hdf5(p, fitted(cname, fname), user_rate=rate,
+                          user_name=name + fn, user_comment=comment)
+        for fn in case["containers"]:
+            for r in load_hdf5(os.path.join(d, fn)):
+                single[(str(r["name"]), int(r["enum"]),
+                        cn.digest(np.asarray(r["data_set"]["fit"])))] = \
+                    entry_digest(r)
+        for how in ("load", "RateManager"):
+            rs = load(d) if how == "load" else RateManager(d).ratings
+            if len(rs) != len(single):
+                out.append(V(PROP, "entry-lost", site=how, witness="count",
+                             detail=f"{len(rs)} ratings from the folder, "
+                             f"{len(single)} in its containers", case=case,
+                             kind="folder"))
+            for r in rs:
+                dg = entry_digest(r)
+                ref = [v for k, v in single.items()
+                       if k[0] == str(r["name"]) and k[1] == int(r["enum"])]
+                if not ref or all(dg != v for v in ref):
+                    what = "?"
+                    if ref:
+                        what = [c for c in COLS
+                                if dg["cols"][c] != ref[0]["cols"][c]] or \
+                            [k for k in dg["fp"]
+                             if dg["fp"][k] != ref[0]["fp"].get(k)]
+                    out.append(V(
+                        PROP, "roundtrip-column", site=how,
+                        witness=f"{r['name']}", detail=f"rating "
+                        f"{r['name']}/{r['enum']} loaded through the folder "
+                        f"differs from the same container loaded alone in "
+                        f"{what}", case=case, kind="folder"))
+    finally:
+        shutil.rmtree(d, ignore_errors=True)
+    return out, len(single)
+
+
+FOLDER_CASES = [
+    {"kind": "folder", "containers": {
+        "a.h5": [("A0", "f1", "u1"), ("B1", "f1", "u1")],
+        "b.h5": [("A0", "f4", "u2"), ("B1", "f3", "u2"),
+                 ("B0", "f2", "u2")]}},
+    {"kind": "folder", "containers": {
+        "x.h5": [("B0", "f3", "u1")],
+        "y.h5": [("B0", "f1", "u2")],
+        "z.h5": [("B0", "f4", "u1"), ("C0", "f1", "u1")]}},
+]
+
+
 def replay(doc):
     ensure_fixtures()
     case = doc["case"]
+    if doc.get("kind") == "folder":
+        return folder_case(case)[0]
     if doc.get("kind") == "fault":
         drv = DRIVERS[case["driver"]]
         hidx = [drv.ops.index(o) for o in case["hist"]]
@@ -584,6 +647,13 @@ def run(tier):
         rep.extend(vs)
         nruns += runs
         Ws.add(W)
+    nfold = 0
+    for fc in FOLDER_CASES:
+        vs, n = folder_case(fc)
+        rep.extend(vs)
+        nfold += n
+    rep.set("folder_ratings_checked", nfold)
+    rep.add("transitions", nfold)
     rep.set("fault_prestate_op_pairs", len(fjobs))
     rep.set("fault_runs", nruns)
     rep.set("write_calls_per_save", sorted(Ws))
